@@ -12,8 +12,17 @@ FILE_TAGS = ('DATA', 'MISC', 'EBUILD', 'AUX', 'MANIFEST')
 _ESC = re.compile(r'\\(x[0-9a-fA-F]{2}|u[0-9a-fA-F]{4}|U[0-9a-fA-F]{8})')
 
 
+class BadEscape(Exception):
+    pass
+
+
 def unescape(p):
-    return _ESC.sub(lambda m: chr(int(m.group(1)[1:], 16)), p)
+    def one(m):
+        v = int(m.group(1)[1:], 16)
+        if v > 0x10FFFF:
+            raise BadEscape(p)
+        return chr(v)
+    return _ESC.sub(one, p)
 
 
 def plain_bytes(name, data):
@@ -35,6 +44,13 @@ def parse(name, data):
         text = raw.decode('utf8')
     except UnicodeDecodeError:
         return None
+    try:
+        return parse_text(text)
+    except BadEscape:
+        return None
+
+
+def parse_text(text):
     out = []
     for line in text.split('\n'):
         f = line.split()
